@@ -39,7 +39,7 @@ ASSUMPTIONS = [
   "which trees end up awake is decided by MJWarp's waking rules (C29's business); the check reads tree_awake after forward()",
   "sleeping sets are written the way sleep_test.py does it: tree_asleep cycles per island + sleep.update_sleep",
 ]
-BUDGET = {"quick": dict(examples=256, seconds=150, workers=16), "thorough": dict(examples=4000, seconds=1500, workers=16)}
+BUDGET = {"quick": dict(examples=256, seconds=420, workers=16), "thorough": dict(examples=4000, seconds=1500, workers=16)}
 NCON, NJ = 160, 480
 _CAP = int(OT.NEFC | OT.NJMAX_NNZ | OT.BROADPHASE | OT.NARROWPHASE)
 _ITER = int(OT.ITERATIONS | OT.LS_ITERATIONS)
